@@ -365,6 +365,17 @@ func C08(c *ev.Ctx) {
 			case rv != wantRV || cm != wantC:
 				viol("differs-from-independent-computation:"+kt.String(), map[string]string{"reveal": rv, "expected_reveal": wantRV, "commitment": cm, "expected_commitment": wantC})
 			}
+			// an OKP (Ed25519) JWK has no "y" member (RFC 8037): the reveal value is the hash of THAT JSON value
+			if kt == concr.Ed25519 && err2 == nil {
+				okp := map[string]interface{}{"kty": j.Kty, "crv": j.Crv, "x": j.X}
+				if cs.C.Nonce {
+					okp["nonce"] = j.Nonce
+				}
+				canonOKP, _ := canonicalizer.MarshalCanonical(okp)
+				if want := rawMultihash(byte(cs.C.Alg), digestOf(cs.C.Alg, canonOKP)); rv != want {
+					viol("okp-key-hashed-with-empty-y-member", map[string]string{"key": string(canonOKP), "reveal": rv, "hash_of_the_key_value": want})
+				}
+			}
 		case "longform":
 			local += longFormCase(c, cs, viol)
 		}
@@ -382,7 +393,7 @@ func C08(c *ev.Ctx) {
 	c.Cov.Evaluations = evals
 	c.Cov.DistinctNontrivial = nt
 	c.Cov.Exhaustive = true
-	c.Cov.Rule = "Identity.tla case families x both hash algorithms: (hash) 5 spellings (canonical, members reordered, whitespace, escapes, number spellings) x 5 alteration classes expanded to every member / every byte position of a model with escapes, numbers and nesting; (validate) 7 ways the presented multihash was made (own/other algorithm, other value, digest relabelled, truncated, garbage, empty) x spellings; (commit) 5 key types x nonce: commitment = hash of decoded reveal value, both recomputed independently (sha256/sha512 + hand-encoded multihash); (longform) 13 initial-state classes (canonical, reordered, whitespace, every suffix-data / delta member altered, added member, bad / padded base64, trailing bits, every byte position changed, empty, non-JSON) x suffix (match, other hash, leading / trailing characters dropped, characters added), resolved by the real DocumentHandler over an empty store."
+	c.Cov.Rule = "Identity.tla case families x both hash algorithms: (hash) 5 spellings (canonical, members reordered, whitespace, escapes, number spellings) x 5 alteration classes expanded to every member / every byte position of a model with escapes, numbers and nesting; (validate) 7 ways the presented multihash was made (own/other algorithm, other value, digest relabelled, truncated, garbage, empty) x spellings; (commit) 5 key types x nonce: commitment = hash of decoded reveal value, both recomputed independently (sha256/sha512 + hand-encoded multihash); (longform) 14 initial-state classes (canonical, reordered, whitespace, every suffix-data / delta member altered, added member, bad / padded base64, trailing bits, every byte position changed, empty, non-JSON) x suffix (match, other hash, leading / trailing characters dropped, characters added), resolved by the real DocumentHandler over an empty store."
 	c.Finish("model_checking")
 }
 
@@ -473,6 +484,15 @@ func longFormVariant(c *ev.Ctx, cs *idCase, viol func(string, interface{}), pad 
 		x := clone()
 		x["type"] = "create"
 		segs = append(segs, b64e(canon(x)))
+	case "foreignTypeMember": // a "type" member that is not the type of the operation the initial state stands for
+		for _, ty := range []interface{}{"update", "recover", "deactivate", "anything-at-all", "Create", ""} {
+			if ty == "" {
+				continue // an empty type is dropped by the model (omitempty): indistinguishable from the canonical form
+			}
+			x := clone()
+			x["type"] = ty
+			segs = append(segs, b64e(canon(x)))
+		}
 	case "badBase64":
 		segs = []string{"***", b64e(canon(initial)) + "*"}
 	case "paddedBase64":
